@@ -12,6 +12,7 @@ import (
 	"strconv"
 	"strings"
 	"time"
+	"unicode/utf8"
 
 	yaml "gopkg.in/yaml.v3"
 
@@ -906,7 +907,9 @@ func titleFunc(v any) any {
 		words := strings.Fields(s)
 		for i, word := range words {
 			if len(word) > 0 {
-				words[i] = strings.ToUpper(word[:1]) + strings.ToLower(word[1:])
+				// (the first letter, not the first byte: "élan" has a two-byte one)
+				_, size := utf8.DecodeRuneInString(word)
+				words[i] = strings.ToUpper(word[:size]) + strings.ToLower(word[size:])
 			}
 		}
 		return strings.Join(words, " ")
